@@ -5,7 +5,7 @@ CXX_SOURCES = ['plugins/artnet/ArtNetNode.cpp']
 HARNESS = 'h_artnet.cpp'
 COQ_FILES = ['GenArtNet.v', 'ArtNet.v']
 EXTRACT = ['artnet_handle', 'AN_PACKET_SIZE', 'mk_an_state']
-RULE = ('Art-Net merge: two output ports on the same / different port addresses x HTP/LTP x ArtDmx from 1-4 source IPs (second source enters merge mode and triggers ArtPollReply-on-change in mid-dispatch, third finds no room) x callbacks that transmit ArtPoll/ArtDmx/ArtTodData from inside the dispatch || Art-Net: valid ArtPoll/ArtPollReply/ArtDmx/ArtTodRequest/ArtTodData/ArtTodControl/ArtRdm/ArtIpProg packets '
+RULE = ('Art-Net controller side: input port with a pending RDM request re-queued from its completion callback x ArtRdm responses matching / not matching (UIDs, PID, sub device, command class, response type, checksum), padded, and cut at every length right after the full response || Art-Net merge: two output ports on the same / different port addresses x HTP/LTP x ArtDmx from 1-4 source IPs (second source enters merge mode and triggers ArtPollReply-on-change in mid-dispatch, third finds no room) x callbacks that transmit ArtPoll/ArtDmx/ArtTodData from inside the dispatch || Art-Net: valid ArtPoll/ArtPollReply/ArtDmx/ArtTodRequest/ArtTodData/ArtTodControl/ArtRdm/ArtIpProg packets '
         'built from the struct layout (plus the ignored opcodes) x mutation of every version/net/address/command/'
         'length/count field to the boundary values of every comparison x every truncation length around the 10-byte '
         'header, each sub-header and the end of the data x maximum-size/oversize datagrams (1227/1228/1229 bytes) x '
@@ -92,6 +92,17 @@ def _ents():
         ('RDMH_destination_uid', 'offsetof(ola::rdm::RDMCommandHeader, destination_uid)'),
         ('RDMH_command_class', 'offsetof(ola::rdm::RDMCommandHeader, command_class)'),
         ('RDMH_param_data_length', 'offsetof(ola::rdm::RDMCommandHeader, param_data_length)'),
+        ('RDMH_source_uid', 'offsetof(ola::rdm::RDMCommandHeader, source_uid)'),
+        ('RDMH_port_id', 'offsetof(ola::rdm::RDMCommandHeader, port_id)'),
+        ('RDMH_sub_device', 'offsetof(ola::rdm::RDMCommandHeader, sub_device)'),
+        ('RDMH_param_id', 'offsetof(ola::rdm::RDMCommandHeader, param_id)'),
+        ('RDM_UID_SIZE', 'ola::rdm::UID::UID_SIZE'),
+        ('RDM_CC_DISCOVER_RESPONSE', 'ola::rdm::RDMCommand::DISCOVER_COMMAND_RESPONSE'),
+        ('RDM_CC_GET_RESPONSE', 'ola::rdm::RDMCommand::GET_COMMAND_RESPONSE'),
+        ('RDM_CC_SET_RESPONSE', 'ola::rdm::RDMCommand::SET_COMMAND_RESPONSE'),
+        ('RDM_ACK_OVERFLOW', 'ola::rdm::ACK_OVERFLOW'),
+        ('RDM_PID_QUEUED_MESSAGE', 'ola::rdm::PID_QUEUED_MESSAGE'),
+        ('RDM_ALL_SUBDEVICES', 'ola::rdm::ALL_RDM_SUBDEVICES'),
         ('RDM_START_CODE', 'ola::rdm::START_CODE'),
         ('RDM_SUB_START_CODE', 'ola::rdm::SUB_START_CODE'),
         ('RDM_CC_DISCOVER', 'ola::rdm::RDMCommand::DISCOVER_COMMAND'),
@@ -195,6 +206,33 @@ def frame(rng):
     return [rng.randrange(256) for _ in range(n)]
 
 
+def pending(rng):
+    """a pending RDM request on input port 0: cc:pid:sub:source uid:destination uid"""
+    return '%d:%d:%d:%s:%s' % (rng.choice([0x20, 0x20, 0x30]), rng.choice([0x60, 0x60, 0xf0, 0x20]),
+                               rng.choice([0, 0, 1, 0xffff]), '7a7000000001', '123400000002')
+
+
+def rdm_resp(rng, pend, pdl=None, **mut):
+    """a response to the pending request; mut overrides: dst, src (6-byte lists), pid, sub, cc, rtype, badsum, ml"""
+    cc, pid, sub, su, du = pend.split(':')
+    cc, pid, sub = int(cc), int(pid), int(sub)
+    if pdl is None:
+        pdl = rng.choice([0, 1, 4, 32, 231])
+    pd = [rng.randrange(1, 256) for _ in range(pdl)]
+    dst = mut.get('dst', list(bytes.fromhex(su)))
+    src = mut.get('src', list(bytes.fromhex(du)))
+    rsub = mut.get('sub', 0 if sub == 0xffff else sub)
+    rpid = mut.get('pid', pid if pid != 0x20 else 0x60)
+    rcc = mut.get('cc', cc + 1)
+    m = [1, 0] + dst + src + [rng.randrange(256), mut.get('rtype', 0), rng.randrange(3), rsub >> 8, rsub & 255, rcc,
+                              rpid >> 8, rpid & 255, pdl] + pd
+    m[1] = mut.get('ml', len(m) + 1) & 255
+    cs = (0xcc + sum(m)) & 0xffff
+    if mut.get('badsum'):
+        cs ^= 1
+    return m + [cs >> 8, cs & 255]
+
+
 def config(rng):
     # port addresses / net equal to the poison bytes (0x00, 0xA5) make comparisons against stale bytes succeed
     net = rng.choice([4, 4, 0, 0, 127])
@@ -213,11 +251,12 @@ def config(rng):
     # output port 1: disabled, on the same universe as port 0, or on another one
     ou2 = rng.choice([16, 16, ou, ou, (ou + 1) & 15, 1])
     b2 = rng.choice(['none', 'none', hx([rng.randrange(1, 256) for _ in range(rng.choice([3, 512]))])])
-    return (net, sub, ou, iu, b, rng.choice([0, 0, 1]), ou2, b2, rng.choice([0, 0, 1]))
+    return (net, sub, ou, iu, b, rng.choice([0, 0, 1]), ou2, b2, rng.choice([0, 0, 1]),
+            rng.choice(['-', '-', pending(rng)]))
 
 
 def cfg_s(c):
-    return '%d,%d,%d,%d,%s,%d,%d,%s,%d' % c
+    return '%d,%d,%d,%d,%s,%d,%d,%s,%d,%s' % (tuple(c) + ('-',) * (10 - len(c)))
 
 
 def valid_any(rng, c):
@@ -391,7 +430,7 @@ def merge_cases(rng, quick):
         oa, ob = (sub << 4) | ou, (sub << 4) | (ou2 & 15)
         def init():
             return rng.choice(['none', hx([rng.randrange(1, 256) for _ in range(rng.choice([3, 512]))])])
-        c = (net, sub, ou, rng.choice([5, 16]), init(), rng.choice([0, 1]), ou2, init(), rng.choice([0, 1, 1]))
+        c = (net, sub, ou, rng.choice([5, 16]), init(), rng.choice([0, 1]), ou2, init(), rng.choice([0, 1, 1]), '-')
         dgs = []
         if rng.random() < 0.7:
             dgs.append(hx(poll(ttm=rng.choice([2, 2, 0, 3]))))
@@ -408,9 +447,44 @@ def merge_cases(rng, quick):
         yield 'artnet %s %s' % (cfg_s(c), ' '.join(dgs))
 
 
+def rdmresp_cases(rng, quick):
+    """controller side: an input port with a pending RDM request (re-queued from the completion callback); ArtRdm
+    responses that match / do not match it (UIDs, PID, sub device, command class, response type, checksum), padded,
+    and cut at every length - each cut copy sent right after the full response, so that the bytes the full one left in
+    the receive buffer would complete the message and its checksum"""
+    for _ in range(12 if quick else 300):
+        net, sub = rng.choice([4, 0]), rng.choice([2, 0, 10])
+        iu = rng.choice([5, 3])
+        ou = rng.choice([iu, 3, 16])     # sometimes an output port on the same address sees the datagram as well
+        ia = (sub << 4) | iu
+        pend = pending(rng)
+        c = (net, sub, ou, iu, 'none', 0, 16, 'none', rng.choice([0, 1]), pend)
+        full = rdm_resp(rng, pend)
+        base = rdm(net=net, addr=ia, data=full)
+        muts = [dict(), dict(rtype=3), dict(rtype=4), dict(badsum=True), dict(pid=0x61), dict(sub=2),
+                dict(cc=0x21), dict(cc=0x31), dict(cc=0x11), dict(cc=0x20), dict(dst=[0x7a, 0x70, 0, 0, 0, 9]),
+                dict(src=[0x12, 0x34, 0, 0, 0, 9])]
+        if quick:
+            muts = [dict()] + rng.sample(muts[1:], 3)
+        for mu in muts:
+            yield 'artnet %s %s' % (cfg_s(c), ' '.join([hx(base), hx(rdm(net=net, addr=ia, data=rdm_resp(rng, pend, **mu)))]))
+        # padded
+        yield 'artnet %s %s' % (cfg_s(c), hx(base + [rng.randrange(256) for _ in range(rng.choice([1, 2, 40]))]))
+        # the full response, then the same cut at every length (quick: around the headers, the length byte and the end)
+        cuts = set(range(24, len(base))) if not quick else (
+            {24, 25, 26, 27, 30, 47, 48, 49, len(base) - 3, len(base) - 2, len(base) - 1} | {rng.randrange(24, len(base)) for _ in range(3)})
+        for cut in sorted(x for x in cuts if 10 < x < len(base)):
+            yield 'artnet %s %s %s' % (cfg_s(c), hx(base), hx(base[:cut]))
+        # other address / no pending request
+        yield 'artnet %s %s' % (cfg_s(c), hx(rdm(net=net, addr=(ia + 1) & 255, data=full)))
+        yield 'artnet %s %s' % (cfg_s(c[:9] + ('-',)), hx(base))
+
+
 def gen_cases(rng, tier):
     quick = tier == 'quick'
     for c in merge_cases(rng, quick):
+        yield c
+    for c in rdmresp_cases(rng, quick):
         yield c
     # quick: many node configurations, each with a random third of the mutants
     for _ in range(14 if quick else 30):
